@@ -316,6 +316,15 @@ func genC08Case(t *rapid.T) *C08Case {
 		g, ty := genMultiTagType(t, mg, rapid.IntRange(0, 2).Draw(t, "depth"))
 		pool = append(pool, c08Pool{g, ty})
 	}
+	// a TAG that names a rule only some calls define (cfn1): calls that bring the function and plain calls - for which
+	// the name is unknown - meet the same cached analysis of the type, in either order
+	tagFn := map[int]bool{}
+	for i := range pool {
+		if rapid.IntRange(0, 3).Draw(t, "tagFn") != 0 {
+			continue
+		}
+		tagFn[i] = addTagFn(&pool[i].ty)
+	}
 	newCall := func() *Call {
 		var s *StructCase
 		if rapid.IntRange(0, 7).Draw(t, "useMulti") == 0 {
@@ -325,8 +334,12 @@ func genC08Case(t *rapid.T) *C08Case {
 				{I: int64(rapid.IntRange(0, 12).Draw(t, "mB"))},
 				desc.Str(rapid.SampledFrom([]string{"", "ab", "13812345678", "abcdef"}).Draw(t, "mC"))}}}}}
 		} else {
-			p := pool[rapid.IntRange(0, len(pool)-1).Draw(t, "type")]
+			pi := rapid.IntRange(0, len(pool)-1).Draw(t, "type")
+			p := pool[pi]
 			s = &StructCase{}
+			if tagFn[pi] && rapid.Bool().Draw(t, "bringTagFn") {
+				s.CallFns = []string{"cfn1"}
+			}
 			switch rapid.IntRange(0, 7).Draw(t, "top") {
 			case 0:
 				s.Root, s.Val = p.ty, p.g.genValueFor(p.ty, 0)
